@@ -144,14 +144,14 @@ impl Sim for ClientSim {
                     // a third of the vault reads: one version from a quorum of holders first (3-5 identical copies
                     // from distinct peers), other replies only afterwards
                     let quorum_first = rng.chance(1, 3);
-                    let q_form = if rng.chance(1, 2) { 0 } else { 1 + rng.below(5) as u8 };
+                    let q_form = if rng.chance(1, 2) { 0 } else { 1 + rng.below(6) as u8 };
                     let q_counter = rng.range(1, 3) as u8;
                     let q_copies = rng.urange(3, 5);
                     let mut replies: Vec<(u8, u8, u8)> = if quorum_first { (0..q_copies).map(|p| (p as u8, q_counter, q_form)).collect() } else { vec![] };
                     let rest: Vec<(u8, u8, u8)> = (0..n)
                         .map(|_| {
                             // form % 8: 0 valid .. 5 substituted content; form / 8: variant (another pad with the same counter)
-                            let form = if rng.chance(1, 2) { 0 } else { 1 + rng.below(5) as u8 };
+                            let form = if rng.chance(1, 2) { 0 } else { 1 + rng.below(6) as u8 };
                             let variant = if rng.chance(1, 6) { 1u8 } else { 0 };
                             (rng.below(8) as u8, rng.range(1, if few_versions { 2 } else { 5 }) as u8, form + 8 * variant)
                         })
